@@ -84,11 +84,19 @@ type Server struct {
 }
 
 func New(nhosts int, emit Event) (*Server, error) {
+	addrs := make([]string, nhosts)
+	for i := range addrs {
+		addrs[i] = fmt.Sprintf("127.0.0.%d:0", 2+i%7)
+	}
+	return NewAt(addrs, emit)
+}
+
+// NewAt listens on the given addresses (a crawl that is restarted must find its hosts again).
+func NewAt(addrs []string, emit Event) (*Server, error) {
 	s := &Server{routes: map[string][]Resp{}, counts: map[string]int{}, gates: map[string]chan struct{}{}, emit: emit,
 		Default: Resp{Status: 404, Body: "not found", Headers: map[string]string{"Content-Type": "text/plain"}}}
-	for i := 0; i < nhosts; i++ {
-		ip := fmt.Sprintf("127.0.0.%d", 2+i%7)
-		ln, err := net.Listen("tcp", ip+":0")
+	for _, addr := range addrs {
+		ln, err := net.Listen("tcp", addr)
 		if err != nil {
 			return nil, err
 		}
